@@ -28,13 +28,46 @@ def codec_impls(F):
     return out
 
 
-def encode_seq(fn):
+def _base(t):
+    """strip value-preserving views: refs, derefs, casts, as_bytes/as_slice/as_str/deref/to_vec/clone"""
+    while True:
+        if t[0] in ("ref", "deref", "cast"):
+            t = t[1]
+        elif t[0] == "call" and t[1].split("::")[-1] in ("as_bytes", "as_slice", "as_str", "deref", "to_vec", "clone", "as_ref", "borrow", "iter") and t[2]:
+            t = t[2][0]
+        else:
+            return t
+
+
+def encode_seq(fn, raw=False):
+    """ordered component writes.  With raw=True also direct byte writes into the buffer (extend_from_slice / push),
+    and a `u32` length prefix followed by the raw bytes of the same value is folded into one `Vec<u8>` component
+    (that is what Vec<u8>'s own encoding writes)."""
     seq = []
     for c in rpo_calls(fn):
         if c.trait == ENC_TRAIT and c.method == "encode":
             t = origin(fn, c.args[0])
             flds = self_fields(t)
-            seq.append({"ty": c.self_ty, "field": flds[0] if flds else None, "src": show(t)[:80], "call": c})
+            seq.append({"ty": c.self_ty, "field": flds[0] if flds else None, "src": show(t)[:80], "call": c, "term": t})
+        elif raw and (c.method or "") in ("extend_from_slice", "extend") and "Vec" in (c.target_path or "") and len(c.args) == 2:
+            t = origin(fn, c.args[1])
+            seq.append({"ty": "bytes*", "field": None, "src": show(t)[:80], "call": c, "term": t})
+    if raw:
+        out = []
+        i = 0
+        while i < len(seq):
+            x = seq[i]
+            if x["ty"] == "u32" and i + 1 < len(seq) and seq[i + 1]["ty"] == "bytes*":
+                lt = x["term"]
+                lens = [c for c in calls_in(lt) if c[1].split("::")[-1] == "len" and c[2]]
+                same = bool(lens) and _base(lens[0][2][0]) == _base(seq[i + 1]["term"])
+                out.append({"ty": "std::vec::Vec<u8>" if same else "u32+bytes(length prefix is `%s`, not the byte length of the payload written)" % show(lt)[:60],
+                            "field": None, "src": seq[i + 1]["src"], "call": x["call"], "term": seq[i + 1]["term"]})
+                i += 2
+                continue
+            out.append(x)
+            i += 1
+        seq = out
     return seq
 
 
